@@ -55,6 +55,17 @@ Definition mark_reg (g : sreg) : sreg :=
 Definition mark (n : name) (l : list sreg) : list sreg :=
   map (fun g => if name_eqb n (g_name g) then mark_reg g else g) l.
 
+(* A handler that does not take the server is registered as the function object itself: the same
+   function under several names is ONE object, and marking it marks all of its registrations. *)
+Definition mark_fn (i : N) (l : list sreg) : list sreg :=
+  map (fun g => if negb (g_inject g) && (g_fid g =? i) then mark_reg g else g) l.
+
+Definition sfind (n : name) (l : list sreg) : option sreg :=
+  find (fun g => name_eqb n (g_name g)) l.
+
+Definition table (t : regtype) (s : sstate) : list sreg :=
+  match t with RFeature => s_features s | RCommand => s_commands s end.
+
 Definition must_refuse (s : sstate) (x : op) : bool :=
   match x with
   | OpFeature n o _ => blank n || taken n (s_features s) || negb (right_type o)
@@ -62,8 +73,7 @@ Definition must_refuse (s : sstate) (x : op) : bool :=
   | OpThread f =>
     f_async f ||
     match f_reg f with
-    | Some (RFeature, n) => negb (taken n (s_features s))
-    | Some (RCommand, n) => negb (taken n (s_commands s))
+    | Some (t, n) => negb (taken n (table t s))
     | None => false
     end
   end.
@@ -76,10 +86,20 @@ Definition spec_step (s : sstate) (x : op) : sstate * bool :=
     | OpFeature n o f => (mkss (s_features s ++ [new_reg n o f]) (s_commands s), false)
     | OpCommand n f => (mkss (s_features s) (s_commands s ++ [new_reg n ONone f]), false)
     | OpThread f =>
+      (* thread() marks the callable registered under the function's LAST registration name *)
       match f_reg f with
-      | Some (RFeature, n) => (mkss (mark n (s_features s)) (s_commands s), false)
-      | Some (RCommand, n) => (mkss (s_features s) (mark n (s_commands s)), false)
-      | None => (s, false)
+      | Some (t, n) =>
+        match sfind n (table t s) with
+        | Some g =>
+          if g_inject g then
+            (match t with
+             | RFeature => mkss (mark n (s_features s)) (s_commands s)
+             | RCommand => mkss (s_features s) (mark n (s_commands s))
+             end, false)
+          else (mkss (mark_fn (g_fid g) (s_features s)) (mark_fn (g_fid g) (s_commands s)), false)
+        | None => (s, false)
+        end
+      | None => (mkss (mark_fn (f_id f) (s_features s)) (mark_fn (f_id f) (s_commands s)), false)
       end
     end.
 
@@ -163,9 +183,6 @@ Definition is_error (x : result) : bool := match x with Ok => false | Error _ =>
 (* Creating a decorator (server.feature(..) / command(..) / thread()) is never refused and changes
    nothing; everything the property says about a "registration" is about the APPLICATION of a
    decorator to a function, whatever happened between its creation and its application. *)
-Definition sfind (n : name) (l : list sreg) : option sreg :=
-  find (fun g => name_eqb n (g_name g)) l.
-
 (* the function object after an accepted call: a registration labels it; thread() marks the
    registered callable, which is the function itself unless the server is injected *)
 Definition spec_fn_w (s : sstate) (x : op) : func :=
@@ -174,8 +191,8 @@ Definition spec_fn_w (s : sstate) (x : op) : func :=
     match f_reg f with
     | None => assign_thread_attr_f f
     | Some (k, n) =>
-      match sfind n (match k with RFeature => s_features s | RCommand => s_commands s end) with
-      | Some g => if g_inject g then f else assign_thread_attr_f f
+      match sfind n (table k s) with
+      | Some g => if negb (g_inject g) && (g_fid g =? f_id f) then assign_thread_attr_f f else f
       | None => f
       end
     end
